@@ -405,6 +405,15 @@ func init() {
 						map[string]interface{}{"ips": fmt.Sprint(c.IPAddresses), "der": hexs(der)}, anyReserved, s1)
 				}
 			}
+			// the same for the common name: reported exactly when it is the text of a reserved address
+			if s2 == int(lint.Pass) || s2 == int(lint.Error) {
+				ip := net.ParseIP(c.Subject.CommonName)
+				want := ip != nil && util.IsIANAReserved(ip)
+				if want != (s2 == int(lint.Error)) {
+					out.Violate("C19|subject-lint-disagrees-with-predicate", fmt.Sprintf("e_subject_contains_reserved_ip reports %d on the common name %q (a reserved address: %v)", s2, c.Subject.CommonName, want),
+						map[string]interface{}{"cn": c.Subject.CommonName, "der": hexs(der)}, want, s2)
+				}
+			}
 			out.Add("lints", Case{Coq: fmt.Sprintf("(%s, %s, %s, (%s, %s, %s))", cqList(ipsCoq), cqList(cnCoq), cqList(netsCoq), cqZ(int64(s1)), cqZ(int64(s2)), cqZ(int64(s3))),
 				Tag: fmt.Sprintf("%d%d%d", s1, s2, s3), Desc: map[string]interface{}{"ips": fmt.Sprint(c.IPAddresses), "cn": c.Subject.CommonName, "nets": fmt.Sprint(nets), "statuses": []int{s1, s2, s3}, "der": hexs(der)}})
 		}
